@@ -30,6 +30,7 @@ class Interp:
         self.requirements = set()
         self.panics = []
         self.num_parse_unwrap = []
+        self.num_parse_text = []
         self.steps = 0
         self.cur = None
         mod = "parsing::%s::" % ("asp::mini_gringo" if which == "asp" else "fol::sigma_0")
@@ -413,6 +414,8 @@ class Interp:
                 inner = strip(e["recv"])
                 if inner.get("k") == "MethodCall" and inner["method"] == "parse":
                     self.num_parse_unwrap.append((self.cur[0], self.cur[1], inner.get("ty", "")))
+                    # which grammar rule's text is converted (when the receiver is the text of a pair)
+                    self.num_parse_text.append((self.cur[0], self.cur[1], inner.get("ty", ""), rv[1] if rv[0] == "text" else None))
                     yield OPAQUE, en
                     continue
                 yield OPAQUE, en
@@ -447,8 +450,11 @@ class Interp:
                     self.pratt_parse(rv, pv, en2)
                     yield OPAQUE, en2
                 continue
+            if m == "as_str" and rv[0] == "pair":
+                yield ("text", rv[1]), en
+                continue
             if m == "collect" or m in ("as_str", "into", "to_string", "clone", "parse", "into_iter", "iter"):
-                yield (rv if m in ("clone", "into_iter", "iter") else OPAQUE), en
+                yield (rv if m in ("clone", "into_iter", "iter") or (rv[0] == "text" and m in ("into", "to_string", "parse")) else OPAQUE), en
                 continue
             # any other method: evaluate args
             envs = [en]
